@@ -20,18 +20,18 @@ LEVEL = "exploration"
 RULE = ("poll histories on one region's event queue through the real request/response handlers with a modelled viewer (tracks the "
         "last id it actually received) and simulator (numbered events, increasing ids): poll answered with 0..4 events (plain EQ "
         "events, templated events, region-announcing EstablishAgentCommunication / EnableSimulator / TeleportFinish / CrossedRegion "
-        "with fresh and repeated addresses), per-event addon decisions {ignore, return True, return 1/'yes'/object, raise}, "
+        "with fresh and repeated addresses), per-event addon decisions {ignore, return True, return 1/'yes'/object, raise, swallow-and-inject-a-rewritten-copy-from-inside-the-hook}, "
         "inject_event / inject_message before polls, response lost followed by a re-poll with the stale ack, 499/502/404 "
         "responses, 200 with undef body, region teardown.  Every response the viewer receives is compared with the model.  "
-        "Exhaustive to depth 4 (quick) / 6 (thorough) over 10 abstract events, Hypothesis histories beyond.  Non-trivial = history with an injection or "
+        "Exhaustive to depth 4 (quick) / 6 (thorough) over 11 abstract events, Hypothesis histories beyond.  Non-trivial = history with an injection or "
         "a swallowed event or a lost response; distinct by content.")
 ASSUMPTIONS = [
     "the viewer re-polls with a stale acknowledgement only after a response was lost; simulator response ids are strictly increasing",
     "each announcement of a simulator address comes with a fresh seed capability URL (as on a real grid: seeds are per connection)",
 ]
-EXHAUSTIVE_PARTS = {"quick": ["all sequences of 10 abstract events to depth 4"], "thorough": ["all sequences of 10 abstract events to depth 6"]}
+EXHAUSTIVE_PARTS = {"quick": ["all sequences of 11 abstract events to depth 4"], "thorough": ["all sequences of 11 abstract events to depth 6"]}
 FLOORS = {"quick": {"histories": 300, "polls": 3000, "replays": 300, "swallowed": 300, "injected_delivered": 300, "emptied_to_undef": 100,
-                    "regions_announced": 200, "teardowns": 100}}
+                    "regions_announced": 200, "teardowns": 100, "injected_in_hook": 300}}
 MANIFEST = {
     "text": "Model-based exploration of event-queue poll histories (bounded-exhaustive + random) with a reference model of what the "
             "viewer must receive per poll: filtered simulator events in order, pending injections appended exactly once, undef for "
@@ -46,6 +46,7 @@ class Addon:
     def __init__(self):
         self.decisions = []
         self.seen = []
+        self.rewritten = []
 
     def handle_eq_event(self, session, region, event):
         self.seen.append(event["message"])
@@ -58,6 +59,12 @@ class Addon:
             return "yes"
         if d == "raise":
             raise RuntimeError("addon fails on event")
+        if d == "rewrite":
+            # replace the event: swallow it and queue a rewritten copy from inside the hook
+            ev = {"message": "Rewritten", "body": {"orig": event["message"], "k": len(self.rewritten)}}
+            self.rewritten.append(ev)
+            region.eq_manager.inject_event(dict(ev))
+            return True
         return None
 
 
@@ -183,6 +190,7 @@ class Run:
                 body = {"error": "timeout", "status": status}
             self.addon.decisions = list(decisions[:len(sim_events)]) + ["ignore"] * max(0, len(sim_events) - len(decisions))
             self.addon.seen = []
+            self.addon.rewritten = []
             n_regions_before = len(self.sess.regions)
             f2.response = tutils.tresp(status_code=status, content=llsd.format_xml(body))
             f2.response.headers["Content-Type"] = "application/llsd+xml"
@@ -196,12 +204,17 @@ class Run:
             if status == 200 and not undef_body:
                 kept = [e for e, d in zip(sim_events, self.addon.decisions + ["ignore"] * len(sim_events)) if False]
                 decs = list(decisions[:len(sim_events)]) + ["ignore"] * max(0, len(sim_events) - len(decisions))
-                kept = [e for e, d in zip(sim_events, decs) if d != "swallow"]
+                kept = [e for e, d in zip(sim_events, decs) if d not in ("swallow", "rewrite")]
                 n_sw = len(sim_events) - len(kept)
                 if n_sw:
                     self.count("swallowed", n_sw)
                     self.nontrivial = True
-                new_events = kept + self.pending_inj
+                # events queued from inside the hooks are injections like any other: this response is the next one that carries events
+                in_hook = [{"message": "Rewritten", "body": {"orig": e["message"], "k": k}}
+                           for k, e in enumerate(e for e, d in zip(sim_events, decs) if d == "rewrite")]
+                if in_hook:
+                    self.count("injected_in_hook", len(in_hook))
+                new_events = kept + self.pending_inj + in_hook
                 if self.pending_inj:
                     self.count("injected_delivered", len(self.pending_inj))
                 self.pending_inj = []
@@ -215,7 +228,7 @@ class Run:
                     out.append(("hook:invocations", "addon hook saw %d of %d simulator events" % (len(self.addon.seen), len(sim_events))))
                 # region registration
                 for (kind, addr_n), d, ev in zip(events, decs, sim_events):
-                    if kind in ANNOUNCE and d != "swallow":
+                    if kind in ANNOUNCE and d not in ("swallow", "rewrite"):
                         if addr_n in self.addresses:
                             self.count("regions_reannounced")
                         self.addresses.add(addr_n)
@@ -291,10 +304,11 @@ ALPHABET = [
     ("inject", 1, False),
     ("inject", 2, True),
     ("teardown",),
+    ("poll", [("plain", 0)], ["rewrite"], False, 200, False),
 ]
 
 EVENT = st.tuples(st.sampled_from(["plain", "plain", "templated", "establish", "enable", "teleport", "crossed"]), st.integers(0, 4))
-DECISION = st.sampled_from(["ignore", "ignore", "swallow", "one", "yes", "raise"])
+DECISION = st.sampled_from(["ignore", "ignore", "swallow", "one", "yes", "raise", "rewrite"])
 OP = st.one_of(
     st.tuples(st.just("poll"), st.lists(EVENT, min_size=1, max_size=4), st.lists(DECISION, max_size=4), st.integers(0, 4).map(lambda i: i == 0),
               st.just(200), st.just(False)),
